@@ -113,7 +113,7 @@ func (w *World) Start(id string, opts NodeOpts, bound time.Duration) *Instance {
 	switch srv.Disk.Flavour {
 	case Monotonic:
 		logs = &monotonicLogStore{logStore{in}}
-	case CommitTracking:
+	case CommitTracking, CommitTrackingEager:
 		logs = &commitTrackingLogStore{logStore{in}}
 	default:
 		logs = &logStore{in}
